@@ -379,7 +379,8 @@ func checkQueueHierarchyForPlacement(path []string, create, hasDynamicPart bool,
 	var queueConf *QueueConfig
 	for _, queue := range conf {
 		queue := queue
-		if queue.Name == queueName {
+		// the path is in lower case, queue names are case-insensitive
+		if strings.ToLower(queue.Name) == queueName {
 			queueConf = &queue
 			break
 		}
@@ -395,16 +396,18 @@ func checkQueueHierarchyForPlacement(path []string, create, hasDynamicPart bool,
 	}
 
 	if len(path) == 1 {
+		// a queue with children is a parent even without the parent flag: the flag is only set automatically on the root
+		isParent := queueConf.Parent || len(queueConf.Queues) > 0
 		if hasDynamicPart {
 			// the "fixed" rule is followed by other rules like tag, user, etc. (root.dev.<user>),
 			// which means that the "fixed" part must point to a parent
-			if queueConf.Parent {
+			if isParent {
 				return placementOK, lastQueueName
 			}
 
 			return errQueueNotLeaf, lastQueueName
 		}
-		if queueConf.Parent {
+		if isParent {
 			return errQueueNotLeaf, lastQueueName
 		}
 
@@ -845,7 +848,8 @@ func getLongestStaticPath(rule PlacementRule) (staticPath, ruleChain string, fou
 			continue
 		}
 
-		if r.Name != types.Fixed {
+		// rule names and the queue name of the fixed rule are case-insensitive (placement.normalise)
+		if strings.ToLower(r.Name) != types.Fixed {
 			if staticPath == "" {
 				staticPath = "<dynamic>"
 			}
@@ -853,7 +857,7 @@ func getLongestStaticPath(rule PlacementRule) (staticPath, ruleChain string, fou
 			continue
 		}
 
-		queueName := r.Value
+		queueName := strings.ToLower(r.Value)
 		qualified := strings.HasPrefix(queueName, RootQueue)
 		if qualified {
 			if staticPath != "" {
